@@ -328,6 +328,11 @@ fn base_cases(tier: Tier) -> Vec<Case> {
     for p in pubs(41) {
         push(&mut v, 2, vec![vec![B::Sub(0, 1), B::Sub(1, 1), B::DropSub(0), p, B::Pub(1, 42), B::Pub(1, 43)]], if q { Some(3) } else { None });
         push(&mut v, 3, vec![vec![B::Sub(0, 1), B::Sub(1, 1), B::Sub(2, 1), B::DropSub(2), p, B::DropSub(0), B::Pub(1, 42), B::Pub(1, 43)]], if q { Some(3) } else { None });
+        // two gone between the same two publications - ahead of, and around, a live one
+        if !matches!(p, B::PubCtx(..)) {
+            push(&mut v, 3, vec![vec![B::Sub(0, 1), B::Sub(1, 1), B::Sub(2, 1), B::DropSub(0), B::DropSub(1), p, B::Pub(1, 42), B::Pub(1, 43)]], if q { Some(3) } else { None });
+        }
+        push(&mut v, 3, vec![vec![B::Sub(0, 1), B::Sub(1, 1), B::Sub(2, 1), B::DropSub(0), B::DropSub(2), p, B::Pub(1, 42), B::Pub(1, 43)]], if q { Some(3) } else { None });
     }
     // subscribers that terminated while someone still holds a strong handle to them (the
     // broker cannot prune them): the live ones still get every publication
